@@ -120,7 +120,25 @@ Example ex_after :
             [([119; 118; 0]%N, 2, 12, 7, 3)%N; ([121; 0]%N, 1, 11, 6, 2)%N]).
 Proof. vm_compute. reflexivity. Qed.
 
-(* C13_free_once on this history: something is live before, nothing after destroying every object *)
+(* C13_separation / C13_terminated talk about something: after the copy both objects hold a pointer in every string
+   field, an array and named dimensions, pairwise different allocations; the copied name "wv" is stored terminated *)
+Example ex_points :
+  let st := run (init_state 3) (ex_hist ++ [OCopy 1 0]) in
+  map (fun p => map (opoints (hp st) p) [QStr FUri; QStr FMeta; QStr FAKey; QStr FSKey; QArr; QName 0; QName 1]) (objs st) =
+  [ [Some 0; Some 1; None; None; Some 2; Some 5; Some 4];
+    [Some 12; Some 7; Some 10; Some 11; Some 13; Some 14; Some 15];
+    [None; None; None; None; None; None; None] ] /\
+  option_map (fun p => ostring_at (hp st) p (QName 0)) (nth_error (objs st) 1) = Some (Some (mkS (Some 14) 3 false)) /\
+  cells (hp st) 14 = Some (PBytes [119; 118; 0]%N).
+Proof. vm_compute. auto. Qed.
+
+(* C13_free_once on this history: 19 allocations are live before, none after destroying every object *)
+Example ex_live_before :
+  let st := run (init_state 3) (ex_hist ++ [OCopy 1 0; OCopy 2 1]) in
+  bad (hp st) = false /\ next (hp st) = 23 /\
+  length (filter (fun x => match cells (hp st) x with Some _ => true | None => false end) (seq 0 23)) = 19.
+Proof. vm_compute. auto. Qed.
+
 Example ex_released :
   let st' := run (init_state 3) ((ex_hist ++ [OCopy 1 0; OCopy 2 1]) ++ destroy_all 3) in
   bad (hp st') = false /\ next (hp st') = 23 /\
